@@ -20,6 +20,7 @@ const (
 	cbChunkMem // values chunked IN MEMORY (Val = first chunk, rest in Transient): the tools/slab pattern
 	cbCodec    // an inverse pair: BeforeItemWrite stores the value encoded with a check byte, AfterItemRead decodes it
 	cbCodecRaw // the same pair WITHOUT an ItemValLength callback: byte totals then depend on what is cached (not compared)
+	cbNestedWrite // BeforeItemWrite returns the item unchanged but first persists ANOTHER collection (Collection.Write): a callback that appends to the store
 )
 
 // marks an item produced by the codec's BeforeItemWrite (already in its stored form)
@@ -40,6 +41,30 @@ func neutralCallbacks(set int, cmpOf map[string]int) gkvlite.StoreCallbacks {
 	}
 	if set&cbAfterRead != 0 {
 		cb.AfterItemRead = func(c *gkvlite.Collection, i *gkvlite.Item) (*gkvlite.Item, error) { return i, nil }
+	}
+	if set&cbNestedWrite != 0 {
+		busy := false
+		n := 0
+		cb.BeforeItemWrite = func(c *gkvlite.Collection, i *gkvlite.Item) (*gkvlite.Item, error) {
+			n++
+			if busy || n%2 == 0 {
+				return i, nil
+			}
+			busy = true
+			defer func() { busy = false }()
+			s := gkvlite.VerifStore(c)
+			for _, name := range s.GetCollectionNames() {
+				if name != c.Name() {
+					if o := s.GetCollection(name); o != nil {
+						if err := o.Write(); err != nil {
+							return nil, err
+						}
+					}
+					break
+				}
+			}
+			return i, nil
+		}
 	}
 	if set&(cbCodec|cbCodecRaw) != 0 {
 		// what the application sees is unchanged; the bytes in the file are not the application's values (and one
